@@ -228,6 +228,14 @@ def check(model, rep):
     # the five operators are thin wrappers over the comparison dunders of the quantity classes (threshold "in any unit")
     from checks.solver_common import absorb_cmp
     absorb_cmp(model, rep, 'C16.dep.cmp', sorted({k for _, k in SENSORS.values()}))
+    # the condition compares ITS sensor's reading with ITS threshold by ITS operator: per-object state that a class-level
+    # descriptor keeping values on itself would make common to every condition (the evaluator reads fields as per-object)
+    from sa.aliases import descriptor_findings
+    df = descriptor_findings(model)
+    for cname, attr, dcls, mod_, ln, detail in df:
+        rep.violation('C16.check', f'{cname}.{attr}:descriptor', detail, f'{mod_}:{ln}')
+    if not df:
+        rep.holds('C16.check', 'fields:descriptor', 'no class attribute is a descriptor that stores values on itself')
     rep.require('C16.place', 3)
     rep.require('C16.check', 4)
     rep.require('C16.ops', 10)
